@@ -414,4 +414,31 @@ theorem retained_nodes_survive (T : Node) (hst : ST T) (cur ph H : Nat) (hH : cu
   subst this
   exact delRule_spares_current vs hdesc cur ph H hH v hw hv
 
+/-! ### a group that is only a part of a key's eligible versions keeps more -/
+
+theorem delRule_desc (E : List HashData) (hd : Desc E) (v : HashData) (hv : v ∈ E.tail) : v ∈ delRule E := by
+  cases E with
+  | nil => simp at hv
+  | cons a t =>
+    cases t with
+    | nil => simp at hv
+    | cons b rest =>
+      have : b.height < a.height := (List.pairwise_cons.mp hd).1 b (by simp)
+      have hne : (b.height != a.height) = true := by simp; omega
+      simpa [delRule, hne] using hv
+
+/-- `pruneFirst` flushes its groups when they get large (999 keys / 10000 entries), so the versions of one key may be
+handed to the deletion rule in several contiguous pieces `g` of the eligible list `E` (scan order = newest first).
+Every piece deletes only what the rule deletes on the whole list: a split keeps more, never less. -/
+theorem delRule_piece (E g pre post : List HashData) (hd : Desc E) (he : E = pre ++ g ++ post) :
+    ∀ v ∈ delRule g, v ∈ delRule E := by
+  intro v hv
+  obtain ⟨g0, gt, eg, hm⟩ := mem_delRule hv
+  apply delRule_desc E hd
+  subst eg
+  subst he
+  cases pre with
+  | nil => simp [hm]
+  | cons p pt => simp [hm]
+
 end C05
